@@ -260,7 +260,8 @@ type world struct {
 	dialNo int
 }
 
-func pullScenario(cf cfgT, requesters int, secondRequest bool) func(x *vrt.Exec) {
+func pullScenario(cf cfgT, requesters int, secondRequest bool, withPlayers ...bool) func(x *vrt.Exec) {
+	players := len(withPlayers) > 0 && withPlayers[0] // every requester starts playing the stream it was given
 	return func(x *vrt.Exec) {
 		vrt.Quiet(true)
 		media.VerifReset()
@@ -291,6 +292,7 @@ func pullScenario(cf cfgT, requesters int, secondRequest bool) func(x *vrt.Exec)
 		}
 		defer func() { vnet.Dialer = nil }()
 		results := make([]*media.Stream, requesters)
+		reqRecs := make([]*hx.Rec, requesters)
 		panics := make([]string, requesters)
 		vrt.Quiet(false)
 		for i := 0; i < requesters; i++ {
@@ -302,6 +304,10 @@ func pullScenario(cf cfgT, requesters int, secondRequest bool) func(x *vrt.Exec)
 					}
 				}()
 				results[i] = media.GetOrCreate(cf.request)
+				if players && results[i] != nil {
+					reqRecs[i] = &hx.Rec{Name: fmt.Sprintf("player-of-requester%d", i)}
+					results[i].StartConsume(reqRecs[i], media.RTPPacket, "requester")
+				}
 			})
 		}
 		vrt.WhenIdle()
@@ -444,7 +450,7 @@ func pullScenario(cf cfgT, requesters int, secondRequest bool) func(x *vrt.Exec)
 		}
 		// concurrent pulls of one path: once the cameras send more media, every pull but the one whose
 		// stream is registered must notice that it was replaced and hang up
-		if requesters > 1 && len(w.cams) > 1 && !strings.Contains(faults(), ":") {
+		if requesters > 1 && len(w.cams) > 1 && !strings.Contains(faults(), ":") && !players {
 			for k := 0; k < 2; k++ {
 				for i, c := range w.cams {
 					if !c.done && c.played {
@@ -473,6 +479,11 @@ func pullScenario(cf cfgT, requesters int, secondRequest bool) func(x *vrt.Exec)
 		vrt.WhenIdle()
 		if media.Get(cf.request) != nil {
 			x.Failf("stream-registered-after-camera-left", "%s [%s]", name, faults())
+		}
+		for i, r := range reqRecs {
+			if r != nil && r.Closed < 1 {
+				x.Failf("consumer-of-ended-pull-not-closed", "%s [%s]: requester %d played the stream it was given; every camera has disconnected and its consumer was never closed", name, faults(), i)
+			}
 		}
 		for i, cl := range w.conns {
 			if !cl.IsClosed() {
@@ -536,6 +547,7 @@ func scenarios(thorough bool) []runner.Scenario {
 	}
 	cf := configs()[0]
 	out = append(out, runner.Scenario{Name: "two-requesters-" + cf.name, Body: pullScenario(cf, 2, false), P: 1, E: 0, Shards: sh, Horizon: 400000})
+	out = append(out, runner.Scenario{Name: "two-requesters-who-play-" + cf.name, Body: pullScenario(cf, 2, false, true), P: 1, E: 0, Shards: sh, Horizon: 400000})
 	if thorough {
 		out = append(out,
 			runner.Scenario{Name: "two-requesters-p2-" + cf.name, Body: pullScenario(cf, 2, false), P: 2, E: 0, Shards: sh, Horizon: 400000},
